@@ -280,6 +280,18 @@ def gen_cases(ctx, quick):
         rows = [[o + v for o, v in zip(off, row)] for row in sp.low_rank_points(r, N, D, D, amp=2)]
         for d in ds_for(N, D, D)[:2]:
             add("large-mean", "pca", "dense", rows, N, D, d, False, None)
+        # 2d. anisotropic exact-rank data (strips / slabs in D dimensions): covariance eigenvalues differing by 10^2 … 10^7
+        #     among the retained directions, rank <= d, Randomized AND Dense
+        N = r.range(6, 14)
+        rank = r.range(2, 3)
+        D = r.range(rank, 5)
+        steps = [r.range(4, 12)] if rank == 2 else [r.range(3, 6), r.range(3, 6)]
+        rows = sp.anisotropic_points(r, N, D, rank, steps)
+        if sp.centred_points_rank(rows) == rank and rank <= min(N - 1, D):
+            for solver in ("rand", "dense"):
+                add("anisotropic-exact-rank", "pca", solver, rows, N, D, rank, False, rank)
+            add("anisotropic-exact-rank", "agree", "rand", rows, N, D, rank, False, rank)
+            add("anisotropic-exact-rank", "agree", "dense", rows, N, D, rank, False, rank)
         # 3. dyadic (non-integer) features
         N = r.range(2, 16)
         D = r.range(1, 5)
@@ -345,13 +357,16 @@ def correspond(ctx):
     ctx.extra["failure_signature_counts"] = dict(ctx._seen)
     ctx.cov["rule"] = ("compute_mean / compute_covariance_matrix called directly and PCA through the public API (hook matrix, "
                        "solver output, returned projection object, embedding) on integer (N = 2^m, exact mode), correlated "
-                       "low-rank/full-rank and dyadic feature data, the same in units 2^-40 .. 2^30, N <= %d, D <= %d, d in {1, rank, min(N-1,D), random}, "
+                       "low-rank/full-rank and dyadic feature data, the same in units 2^-40 .. 2^30, anisotropic exact-rank strips / slabs (covariance eigenvalue ratios 10^2 .. 10^7), N <= %d, D <= %d, d in {1, rank, min(N-1,D), random}, "
                        "dense solver everywhere and the randomized solver on exact-rank data (rank <= d); N up to 3000 (thorough "
                        "20000) samples with OMP_NUM_THREADS = 8 and 1 for the per-sample loops; plus PCA vs "
                        "linear-kernel KPCA vs Euclidean MDS Gram agreement; every trace judged in exact rationals by "
                        "model_c06 against the TRUE sample covariance computed from the raw data; non-trivial = N >= 3 and "
                        "D >= 2; distinct by case text" % (32 if quick else 64, 12 if quick else 30))
     ctx.assumptions += [
+        "the eigen-certificate of the Randomized solver's (V, lambda) uses the relative tolerance 2^-20 instead of 2^-30: its "
+        "single Gram-Schmidt pass loses (lambda_max/lambda_min)*2^-53 of orthogonality, up to 2^-28 on the anisotropic "
+        "exact-rank families (retained eigenvalue ratios up to 2^25); embedding-level checks stay at 2^-30 / 2^-40",
         "harness compiled at -O0 -g1 (ASan+UBSan on) instead of -O1 -g: the all-methods translation unit needs 2-3 min and "
         "several GB otherwise",
         "eigensolver enters as a contract (IsTopEig); its outputs are certificate-checked per run in exact rationals "
